@@ -75,8 +75,12 @@ int main(int argc, char** argv) {
         { std::string g(300, 0); for (size_t i = 0; i < g.size(); i++) g[i] = (char)((i * 197 + 13) & 0xff); add("G", g); }
         { const PoolFile& B = pool[1]; size_t cut = (B.rf.blocks[1].begin + B.rf.blocks[1].end) / 2; PoolFile h; h.name = "H"; h.path = g_dir + "/in_H"; h.bytes = B.bytes.substr(0, cut); spit(h.path, h.bytes); h.cdns_header = true; h.valid = false; h.rf = B.rf; h.readable_blocks = 1; pool.push_back(h); }
         { Node root = parse_exact(pool[0].bytes); root.kids[2].kids.clear(); root.kids[2].indef = true; add("I", encode(root)); }
+        { // J: like C (10^9 ticks per second) but its blocks omit the optional block-parameters-index (default 0), times near the end of a second
+          seeds::Opt o; o.sets = {PS(10000, 1000000000, 0)}; o.blocks = 2; o.per_block = 2; o.qr_from = 2; Node root = parse_exact(seeds::make(o));
+          for (auto& blk : root.kids[2].kids) for (size_t i = 0; i + 1 < blk.kids.size(); i += 2) if (blk.kids[i].is_uint() && blk.kids[i].arg == 0) { Node& pre = blk.kids[i + 1]; for (size_t j = 0; j + 1 < pre.kids.size(); j += 2) if (pre.kids[j].is_uint() && pre.kids[j].arg == 1) { pre.kids.erase(pre.kids.begin() + j, pre.kids.begin() + j + 2); break; } }
+          add("J", encode(root)); }
         { PoolFile z; z.name = "Z"; z.path = g_dir + "/in_Z_missing"; pool.push_back(z); }
-        if (!pool[7].valid) { fprintf(stderr, "pool file I invalid\n"); return done(2); }
+        if (!pool[7].valid || !pool[8].valid || pool[8].rf.blocks.empty() || pool[8].rf.blocks[0].has_bpi) { fprintf(stderr, "pool file I or J invalid\n"); return done(2); }
         size_t N = pool.size();
         auto run_tuple = [&](const std::vector<size_t>& tup, Result& R) {
             std::string tag = "t" + std::to_string(getpid()); std::string name; for (size_t i : tup) name += pool[i].name;
@@ -128,7 +132,7 @@ int main(int argc, char** argv) {
             run_tuple(tuples[i], R);
         }, [&](uint64_t, const std::string& d, Result& R) { R.violation("merge|harness-crash", d.substr(0, 500), pl.last_note); }, total);
         total.n["evaluations"] = total.n["traces"];
-        total.notes.push_back("pool: A(1 set,1e6 tps,3 blocks) B(2 sets,1e3 tps,reduced hints,4 blocks) C(1e9 tps, QR hints 0) D(minor version 5) E(private version 9) G(300 non-CDNS bytes) H(B cut inside block 2) I(valid, zero blocks) Z(missing)");
+        total.notes.push_back("pool: A(1 set,1e6 tps,3 blocks) B(2 sets,1e3 tps,reduced hints,4 blocks) C(1e9 tps, QR hints 0) D(minor version 5) E(private version 9) G(300 non-CDNS bytes) H(B cut inside block 2) I(valid, zero blocks) J(10^9 ticks, blocks without block-parameters-index) Z(missing)");
         return done(0);
     }
 
